@@ -134,4 +134,4 @@ def named_const(eng, c, path):
     return None
 
 
-from . import m_core, m_str, m_seq, m_iter, m_map, m_fmt, m_daac, m_io, m_bincode, m_liblinear, m_cli      # noqa: E402,F401
+from . import m_core, m_str, m_seq, m_iter, m_map, m_fmt, m_daac, m_io, m_bincode, m_liblinear, m_cli, m_csv      # noqa: E402,F401
